@@ -53,6 +53,7 @@ var (
 	errPresentationWithoutExpiration           = errors.New("presentation does not have an expiration")
 	errPresentationValidityExceedsCredentials  = errors.New("presentation is valid longer than the credential(s) it contains")
 	errPresentationDoesNotFulfillDefinition    = errors.New("presentation does not fulfill Presentation ServiceDefinition")
+	errCredentialWithoutID                     = errors.New("credential does not have an ID")
 	errRetractionReferencesUnknownPresentation = errors.New("retraction presentation refers to a non-existing presentation")
 	errRetractionContainsCredentials           = errors.New("retraction presentation must not contain credentials")
 	errInvalidRetractionJTIClaim               = errors.New("invalid/missing 'retract_jti' claim for retraction presentation")
@@ -274,6 +275,12 @@ func (m *Module) verifyRegistration(definition ServiceDefinition, presentation v
 }
 
 func (m *Module) validateRegistration(definition ServiceDefinition, presentation vc.VerifiablePresentation) error {
+	// Credentials are stored (and searched) by their ID, so it must be present
+	for _, cred := range presentation.VerifiableCredential {
+		if cred.ID == nil {
+			return errCredentialWithoutID
+		}
+	}
 	// VP can't be valid longer than the credentialRecord it contains
 	expiration := presentation.JWT().Expiration()
 	for _, cred := range presentation.VerifiableCredential {
